@@ -11,6 +11,10 @@ from bbox import Sandbox, Rng, blake3_hex, hexs, HOST
 
 CONTENTS = [b"one\n", b"two two\n", b"3", b"", b"four-four-four-four\n", b"\x00\xff\x00five", b"six" * 50]
 PATHS = ["p", "q", "d/r", "d/e/s", "t.txt", "a b", "d.x"]
+# every random history also gets three names from this list (seed C06-D: a file name containing `..` made the archive
+# look tampered). None is a directory prefix of another or of PATHS; none ends in the reserved staging suffix.
+EXOTIC = ["v1..v2.diff", ".hidden", "d/.e", "UP.txt", "up.txt", "a'b", "nl\nx", "é", "-dash", "tab\tz", "d/e/..s", "sp dir/f",
+          "q.conflict-vh-000000000000", "~t", "$v", "star*", "d..d/f", "...", "a\\b", "%p", "d/e/s.bak", "zz/.copia/x"]
 
 
 def archive_trust(raw, stem):
@@ -116,6 +120,7 @@ class Hist:
 
 def gen_history(rng, length, c07=False):
     ops = []
+    PATHS = globals()["PATHS"] + [rng.pick(EXOTIC) for _ in range(3)]
     made_conflict_names = []
     for i in range(length):
         r = rng.below(11)
